@@ -71,7 +71,7 @@ def job_strategy(draw, spec: dict) -> dict:
                 w = valuegen.words_hex(valuegen.to_words(ct, v))
                 sizes = sorted({0, 1, mx // 2, max(0, mx - 2), max(0, mx - 1), mx, mx + 1} if mx > 12 else set(range(0, mx + 2)))
                 for b in sizes[: spec["n_small_buf"]] if mx > 12 else sizes:
-                    cases.append({"op": "S", "ti": ti, "words": w, "prefill": "a5", "buf": b, "dom": "range"})
+                    cases.append({"op": "S", "ti": ti, "words": w, "prefill": "a5", "buf": b, "dom": "range", "small": b < mx})
             if spec.get("n_byte_batches", 0):
                 batch = draw(valuegen.bytes_cases(ct, spec["n_byte_batches"]))
                 seen = set()
@@ -125,13 +125,17 @@ def draw_jobs(ctx: core.Ctx, n: int, spec: dict, seed_offset: int = 0) -> typing
     return jobs
 
 
-def command_for(case: dict, key: str) -> typing.Optional[str]:
+def command_for(case: dict, key: str, reduced: bool = False) -> typing.Optional[str]:
     """The command line a target receives for a case, or None if the case does not apply to that target."""
     lang = key.split("|")[0]
     if case["op"] == "S":
         if lang == "py" and case["dom"] != "range":
             return None
         if lang == "cpp" and case["dom"] == "invalid" and case.get("bad_tag"):
+            return None
+        if case.get("small") and reduced:
+            # documented (--enable-override-variable-array-capacity): "This option will disable serialization buffer
+            # checks" once a capacity is overridden -- an undersized buffer is then the caller's responsibility
             return None
         return f"S {case['ti']} {case['prefill']} {case['buf']} {case['words']}"
     mode = case["mode"]
@@ -186,7 +190,7 @@ def execute(jobs: typing.List[dict], sanitize: bool = True, workers: int = 16, c
         job, L = jobs[ji], labs[ji]
         idx, cmds = [], []
         for ci, c in enumerate(job["cases"]):
-            cmd = command_for(c, key)
+            cmd = command_for(c, key, reduced=bool(key.startswith("c|") and key.endswith("|1") and job.get("cap_overrides") and cap_overrides_fn))
             if cmd is not None:
                 idx.append(ci)
                 cmds.append(cmd)
